@@ -292,6 +292,7 @@ type c09Cfg struct {
 	Mixed    bool    `json:"mixed_costs"`
 	PreUsed  bool    `json:"pre_used_concurrently"`
 	AfterRec bool    `json:"after_recency_friendly_phase,omitempty"`
+	AfterOld bool    `json:"after_an_earlier_working_set,omitempty"`
 	Requests int     `json:"requests"`
 }
 
@@ -375,6 +376,39 @@ func c09Trace(r *Run, idx int, cfg c09Cfg) {
 		if int(wc)*10 >= cfg.MaxSize*6 {
 			r.Count("recency_phases_that_took_the_window_past_60_percent", 1)
 		}
+	}
+	if cfg.AfterOld {
+		// an earlier working set first: as many keys as the cache holds, read uniformly 30 x MaxSize times (a miss
+		// stores the key) by one goroutine or by eight at once, never touched again afterwards. The hot set then has
+		// to take the place of residents that were popular once.
+		state = "after-earlier-working-set"
+		oldBase := 1 << 26
+		phase := func(seed int64, n int) {
+			pr := rand.New(rand.NewSource(seed))
+			for i := 0; i < n; i++ {
+				k := oldBase + pr.Intn(cfg.MaxSize)
+				if !cc.read(k) {
+					cc.insert(k)
+				}
+				if i%32 == 0 {
+					cc.wait()
+				}
+			}
+		}
+		if idx%2 == 0 {
+			phase(rng.Int63(), 30*cfg.MaxSize)
+		} else {
+			var wg sync.WaitGroup
+			for g := 0; g < 8; g++ {
+				wg.Add(1)
+				go func(seed int64) { defer wg.Done(); phase(seed, 8*cfg.MaxSize) }(rng.Int63())
+			}
+			wg.Wait()
+			state += "/concurrent"
+		}
+		cc.wait()
+		// the reference LRU is only reported for hot-set traces, never judged: it is not fed this phase
+		r.Count("earlier_working_set_phases_run", 1)
 	}
 	switch cfg.Workload {
 	case "hot":
@@ -510,6 +544,11 @@ func c09Configs(r *Run) []c09Cfg {
 			}
 			// hot set after a long recency-friendly history (sizes above the open finding's range; at most
 			// 3 inserts per read, where the unchanged climber is known to come back; a longer measured phase)
+			// hot set after an earlier, once popular working set of the cache's size (sizes above the open
+			// findings' range, one insert per read, measured over 120 x MaxSize requests)
+			if m == 4096 || m == 10000 {
+				all = append(all, c09Cfg{Workload: "hot", Kind: k, MaxSize: m, HotFrac: 0.5, Reads: 1, Inserts: 1, AfterOld: true, Requests: 120 * m})
+			}
 			if m == 1024 || m == 4096 {
 				mm := m
 				if m == 4096 {
@@ -540,6 +579,15 @@ func runC09(r *Run) {
 	r.Assume("a hit = answered from the memory tier without running the loader / consulting the secondary store",
 		"thresholds 0.97 (hot set) and LRU-0.005 (Zipf) are set inside the margins measured on the repaired tree; the traces are PRNG-determined per seed")
 	all := c09Configs(r)
+	if r.Args["onlyold"] != "" { // calibration aid: only the after-earlier-working-set arm
+		var f []c09Cfg
+		for _, c := range all {
+			if c.AfterOld {
+				f = append(f, c)
+			}
+		}
+		all = f
+	}
 	if r.Args["onlyrec"] != "" { // calibration aid: only the after-recency arm
 		var f []c09Cfg
 		for _, c := range all {
@@ -552,7 +600,7 @@ func runC09(r *Run) {
 	if m := mustAtoi(r.Args["onlysize"], 0); m > 0 { // calibration aid: only the hot-set traces of one MaxSize
 		var f []c09Cfg
 		for _, c := range all {
-			if c.Workload == "hot" && c.MaxSize == m && !c.AfterRec {
+			if c.Workload == "hot" && c.MaxSize == m && !c.AfterRec && !c.AfterOld {
 				f = append(f, c)
 			}
 		}
@@ -569,7 +617,7 @@ func runC09(r *Run) {
 	} else {
 		// quick: a PRNG-chosen stratified subset: per shard 4 hot + 2 zipf traces, half of them pre-used, sizes <= 10000
 		perm := rng.Perm(len(all))
-		hotN, zipfN, pow2N, recN := 0, 0, 0, 0
+		hotN, zipfN, pow2N, recN, oldN := 0, 0, 0, 0, 0
 		isPow2 := func(m int) bool { return m&(m-1) == 0 }
 		for _, p := range perm {
 			c := all[p]
@@ -577,6 +625,11 @@ func runC09(r *Run) {
 				continue
 			}
 			switch {
+			case c.AfterOld:
+				if oldN < 1 && (r.Args["onlyold"] != "" || p%2 == 0) {
+					oldN++
+					mine = append(mine, c)
+				}
 			case c.AfterRec:
 				if recN < 1 {
 					recN++
